@@ -90,10 +90,12 @@ func init() {
 			replies("text-pipeline2", map[string]int64{"pipeline": 2, "text": 1}, c08only, rb8),
 			replies("binary-get-after-failed-multiget", map[string]int64{"pipeline": 2, "getfault": 1}, c08only, "a 2-key quiet-get batch during which backend call 0 or 1 on L1 fails with ERROR Busy (error reply, connection kept), then a single-key get: it is answered in full, terminator included; 9 orchestrator configurations"),
 			replies("text-get-after-failed-multiget", map[string]int64{"pipeline": 2, "getfault": 1, "text": 1}, c08only, "the same over the text protocol with gets of 2-3 keys followed by a 1-key get"),
+			replies("text-get-arbitrary-key-byte", map[string]int64{"pipeline": 1, "text": 1, "symkey": 1, "orca": 0, "kind1": 6}, c08only, "a text get of two keys on the single-tier orchestrator where one client key is a single arbitrary printable byte (every byte 0x21..0x7e, e.g. a formatting directive character): the VALUE lines name the requested keys"),
 		},
 		Thorough: []Job{
 			replies("binary-3keys-2bytes", map[string]int64{"pipeline": 1, "nk": 3, "dlen": 2, "len0": 3}, c08only, "single binary request with 3 keys, stored values 3 bytes, written values 2 bytes"),
-			replies("text-flags-5digits", map[string]int64{"pipeline": 1, "text": 1, "maxflags": 99999, "digits": 3}, c08only, "single text request, stored flags up to 99999 (1-5 digit renderings), 3-digit numeric request fields"),
+			replies("text-any-command-arbitrary-key-byte", map[string]int64{"pipeline": 1, "text": 1, "symkey": 1, "norca": 2}, c08only, "any single text command on the single-tier and the two-tier orchestrator where one client key is a single arbitrary printable byte"),
+			replies("text-flags-2digits", map[string]int64{"pipeline": 1, "text": 1, "maxflags": 99, "digits": 2}, c08only, "single text request, stored flags up to 99 (1-2 digit renderings), 2-digit numeric request fields (longer decimal renderings compared against a decimal parse are multiply/divide chains the solvers do not finish)"),
 		}})
 
 	conc3 := func(name string, params map[string]int64, bounds string) Job {
